@@ -468,3 +468,10 @@ def run(rep, tier):
         st = [h for h in hits if h[1] in ('mutable-global', 'function-static')]
         rep.add('R2', tu + ':no-nondeterminism-source', not nd, tu, '; '.join('%s in %s at %s' % (h[1], h[0], h[2]) for h in nd) or 'none found')
         rep.add('R3', tu + ':no-mutable-static-state', not st, tu, '; '.join('%s %s at %s' % (h[1], h[3], h[2]) for h in st) or 'none found')
+    # R4: folding uses only operands that have a value (import of C07-R8)
+    from .. import report as _report
+    from . import c07
+    rep.rule('R4', 'constant folding never produces a value from an operand that has none: an operator is folded only when every operand whose '
+             'value the result depends on is constant -- otherwise the fold reads the empty optional of a non-constant node, i.e. whatever the '
+             'heap held (import of the fold-effect rule C07-R8)', floor=20)
+    c07.rule_fold_effects(_report.Import(rep, 'R4', 'C07'), idxs['xcmp.cpp'])
